@@ -2,7 +2,7 @@
 
 Deciding step: CTE; at every save point of every explored execution (generated, after each
 erasure, after overwriting) the live program p is written with the real dump_program and read
-back with the real load_program (and through ProgramProcessor.get_program with --replay):
+back with the real load_program (written by the driver's own hephaestus.save_program, read through ProgramProcessor.get_program with --replay):
   * q = load(dump(p)) has the same canonical structural snapshot as p, and so has
     load(dump(q)) (dumping again is stable);
   * translate(q) == translate(p) in all four languages;
@@ -164,8 +164,18 @@ class Oracle:
             utils = pipeline._env['utils']
             P = {'P0': x.P0, 'P1': x.P1, 'P2': x.P2}[name]
             with pipeline.oracle_scope(x):
-                path = os.path.join(self.dir, name + '.bin')
-                utils.dump_program(path, P)
+                # saved the way the driver saves it: hephaestus.save_program(program, text, file) writes the source
+                # and <file>.bin (three saves per execution, in the driver's order: generated, erased, overwritten)
+                import hephaestus as H
+                own_text = {'P0': x.T0, 'P1': x.T1, 'P2': x.T2}[name]
+                src = os.path.join(self.dir, name, 'program.src')
+                H.save_program(P, own_text, src)
+                path = src + '.bin'
+                self.stats['driver_saves'] = self.stats.get('driver_saves', 0) + 1
+                with open(src) as f_:
+                    if f_.read() != own_text:
+                        self._vs.append({'rule': 'saved-source-differs', 'site': 'hephaestus.py:save_program',
+                                         'shape': 'source stored next to the .bin differs from the translation at stage %s' % name})
                 q = utils.load_program(path)
                 self.stats['save_points'] += 1
                 self.stats['roundtrips'] += 1
